@@ -98,13 +98,18 @@ class Run(object):
         cfg = {"sync_request_timeout": None, "allow_public_attrs": True}
         cfg_a = dict(cfg)
         if workload == "before_closed":
-            cfg_a["before_closed"] = lambda root: self.outcomes.append(("bc", "bye", self._try(lambda: root.bye()), 0))
+            def before_closed(root):
+                self.bc_calls += 1
+                self.outcomes.append(("bc", "bye", self._try(lambda: root.bye()), 0))
+            cfg_a["before_closed"] = before_closed
         self.b = make_service(self.stats, "B")()._connect(Channel(self.net.b), dict(cfg))
         self.a = make_service(self.stats, "A")()._connect(Channel(self.net.a), cfg_a)
         self.stats["conn.A"], self.stats["conn.B"] = self.a, self.b
         vsched.simulate_connection(self.a, self.sched, "A")
         vsched.simulate_connection(self.b, self.sched, "B")
         self.closed_after = []
+        self.close_outcome = None
+        self.bc_calls = 0
         self.a_close_returned = False
         self.outcomes = []        # (kind, token, ("value", v) | ("exc", name))
         self.pushed = []
@@ -177,7 +182,7 @@ class Run(object):
         except BaseException as e:       # e.g. an attribute lookup on the root proxy after the fault
             self.outcomes.append(("body", "body", ("exc", type(e).__name__), 0))
         finally:
-            self._try(a.close)
+            self.close_outcome = self._try(a.close)
             self.a_close_returned = True
 
     def drive_b(self):
@@ -243,6 +248,10 @@ class Run(object):
                 bad.append(("second-close-raises/" + name, "closing again raised %r" % (e,)))
             if self.stats.get(name + ".disconnect", 0) != n:
                 bad.append(("second-close-not-noop/" + name, "closing again ran the disconnect hook again"))
+        if self.close_outcome is not None and self.close_outcome[0] == "exc":
+            bad.append(("close-raises/%s" % self.close_outcome[1], "close() raised %s" % self.close_outcome[1]))
+        if self.bc_calls > 1:
+            bad.append(("close-reentered", "the before_closed hook ran %d times: close() was carried out twice" % self.bc_calls))
         for kind, token, out, depth in self.outcomes:
             if out[0] == "value":
                 exp = expected(kind, token, depth)
